@@ -58,10 +58,16 @@ type Run struct {
 	mask  map[string]bool
 	w     *worker
 	quiet bool // statistics are discarded (shrinking, counterfactual runs)
+	showOnly bool
 
 	log      []string
 	Artefact any // materialised artefact for replay files
 }
+
+// ShowOnly reports whether the check should only materialise its artefact
+// (into r.Artefact) and return without executing it (VERIF_MODE=show of a
+// run that would kill the process).
+func (r *Run) ShowOnly() bool { return r.showOnly && os.Getenv("VERIF_SHOW_ONLY") != "" }
 
 // Masked reports whether a generator feature is masked in this run
 // (counterfactual known-finding matching).
@@ -309,6 +315,17 @@ func Main(t *testing.T, c Check) {
 		}
 	case "shrinkcrash":
 		shrinkCrash(c, w, out)
+	case "show":
+		// Print the materialised artefact and event log of a replay file
+		// (debugging aid; for crashing runs the artefact is printed before
+		// the run is executed when VERIF_SHOW_ONLY is set by the check).
+		var rf ReplayFile
+		readJSON(os.Getenv("VERIF_REPLAY"), &rf)
+		r := newRun(c, w, rf.Seed, rf.Index, streamOf(c, &rf), nil)
+		r.showOnly = true
+		v := c.Exec(r)
+		b, _ := json.MarshalIndent(map[string]any{"artefact": r.Artefact, "log": r.log, "violation": v}, "", " ")
+		fmt.Println(string(b))
 	default:
 		Fail("unknown VERIF_MODE %q", mode)
 	}
